@@ -2,6 +2,7 @@ import FgaVerif.Proofs.Weights
 import FgaVerif.Proofs.WeightsPump
 import FgaVerif.Proofs.WAssignPost
 import FgaVerif.Proofs.WAssignNode
+import FgaVerif.Proofs.WAssignMax
 /-! # C04 — weights equal the true maximum tuple-hop depth (specification side)
 
     `Spec/Weights.lean` is a *specification*, not a port: the Go weight assignment (`AssignWeights`,
@@ -77,6 +78,19 @@ import FgaVerif.Proofs.WAssignNode
       a finite weight is the number of hops of such a path, every weight is at most Infinite, and an Infinite weight
       comes with a reachable cycle from which the type is reachable (or a path with at least Infinite hops).
       With the edge rule and the node rule the weights are a witnessed fixed point of the equations.
+
+    * **exactness of the algorithm's result** (`Proofs/WAssignMax.lean`; `HasT g v T` — `T` reaches `v` through some edge of
+      a relation/union, every edge of an intersection, a base edge of an exclusion; `WalkT g v T k` — a walk of `k` hops
+      on which every node is reached by `T`; per edge, as the code computes it: KF-C04-operand-grouping):
+      `algorithm_keys_exact` — **a visited node carries a weight for exactly the types that reach it** (completeness
+      `algorithm_keys_complete` from the edge and node rules; soundness `algorithm_keys_sound` by a sixth pass over the
+      computation, in which a placeholder `R#n` on an edge or node stands for "every type that reaches `n` gets here");
+      `algorithm_weight_dominates_walks` — the weight dominates the hop count of every walk, saturating at Infinite;
+      `algorithm_finite_weight_is_max_hops` — **a finite weight is attained by a walk and no walk has more hops**;
+      `algorithm_infinite_iff_unbounded` — **the weight is Infinite exactly when the hop counts of the walks are
+      unbounded** (for a graph with fewer than 2^31-1 nodes, `decide`d per input; without that hypothesis
+      `algorithm_infinite_iff`: … or some walk has at least Infinite hops); `algorithm_cycles_have_hops` — the cycle
+      behind an Infinite weight contains a direct/TTU edge, because the pre-pass rejects all others.
 
     Not proved: that the fuel of the iteration always suffices (checked per input: `isFixpoint`,
     `normalB`), and that the port equals the specification.  -/
@@ -447,6 +461,195 @@ example : Conn algoCycle "doc#a" "doc#a" :=
     (List.mem_of_getElem? (l := edgesOf algoCycle "doc#a") (i := 1) (by decide)) (by decide)
     (Conn.edge ⟨"doc#b", "doc#a", .direct, "", ["none"]⟩
       (List.mem_of_getElem? (l := edgesOf algoCycle "doc#b") (i := 1) (by decide)) (by decide))
+
+/-! ### M. completeness and maximality (`Proofs/WAssignMax.lean`) -/
+
+/-- M1. **completeness of the keys**: a visited node carries a weight for every terminal type that reaches it
+    (`HasT`: through some edge of a relation or union, every edge of an intersection, a base edge of an exclusion).
+    No closedness hypothesis on the edges is needed: a label that is not a node of the graph counts as a specific
+    type (`nonterminal_in_graph`) -/
+theorem algorithm_keys_complete (g : G) (hn : noPHTypesB g = true) (order : List String) (st : AState)
+    (h : assignWeights g order = .ok st) (v T : String) (hv : v ∈ st.visited) (hT : HasT g v T) :
+    (wget T (aget v st.nodeW)).isSome = true :=
+  assignWeights_keys_complete g (noPHTypesB_sound g hn) order st h v T hv hT
+
+/-- M2. **maximality**: the weight for `T` dominates the number of hops of every walk to `T` (inside the semantics:
+    every node of the walk is reached by `T`), saturating at `Infinite` -/
+theorem algorithm_weight_dominates_walks (g : G) (hn : noPHTypesB g = true) (order : List String) (st : AState)
+    (h : assignWeights g order = .ok st) (v T : String) (k : Nat) (hv : v ∈ st.visited) (hw : WalkT g v T k) :
+    ∃ w, wget T (aget v st.nodeW) = some w ∧ min k FgaVerif.Model.WAssign.infinite ≤ w :=
+  assignWeights_dominates_walks g (noPHTypesB_sound g hn) order st h v T k hv hw
+
+/-- M3. **a finite weight is the largest number of tuple hops on any walk to that type**: the type reaches the node,
+    some walk has exactly `w` hops, and no walk has more -/
+theorem algorithm_finite_weight_is_max_hops (g : G) (hn : noPHTypesB g = true) (order : List String) (st : AState)
+    (h : assignWeights g order = .ok st) (v T : String) (w : Nat) (hv : v ∈ st.visited)
+    (hw : wget T (aget v st.nodeW) = some w) (hlt : w < FgaVerif.Model.WAssign.infinite) :
+    HasT g v T ∧ WalkT g v T w ∧ ∀ k, WalkT g v T k → k ≤ w :=
+  assignWeights_finite_max g (noPHTypesB_sound g hn) order st h v T w hv hw hlt
+
+/-- M4. **unbounded walks give `Infinite`** -/
+theorem algorithm_unbounded_walks_give_infinite (g : G) (hn : noPHTypesB g = true) (order : List String) (st : AState)
+    (h : assignWeights g order = .ok st) (v T : String) (hv : v ∈ st.visited)
+    (hu : ∀ n, ∃ k, n ≤ k ∧ WalkT g v T k) : wget T (aget v st.nodeW) = some FgaVerif.Model.WAssign.infinite :=
+  assignWeights_unbounded_infinite g (noPHTypesB_sound g hn) order st h v T hv hu
+
+/-- M5. **the cycle behind an `Infinite` weight contains a direct or TTU edge** (the pre-pass rejects every cycle of
+    rewrite/computed edges), so the paths of the graph from the node to the type have unboundedly many hops — or one
+    of them has at least `Infinite` hops (`W` sharpened, for paths through any edges; M7 is the statement inside the
+    semantics) -/
+theorem algorithm_cycles_have_hops (g : G) (hn : noPHTypesB g = true) (order : List String) (st : AState)
+    (h : assignWeights g order = .ok st) (v T : String)
+    (hw : wget T (aget v st.nodeW) = some FgaVerif.Model.WAssign.infinite) :
+    (∀ n, ∃ k, n ≤ k ∧ ReachN g v T k) ∨ ∃ k, FgaVerif.Model.WAssign.infinite ≤ k ∧ ReachN g v T k :=
+  assignWeights_infinite_paths g (noPHTypesB_sound g hn) order st h v T hw
+
+/-- M6. **soundness of the keys**: every key of a final node weight map is a type that reaches the node (and every
+    key of an edge is carried by the edge) -/
+theorem algorithm_keys_sound (g : G) (hn : noPHTypesB g = true) (order : List String) (st : AState)
+    (h : assignWeights g order = .ok st) (v T : String) (hk : (wget T (aget v st.nodeW)).isSome = true) : HasT g v T :=
+  (assignWeights_keys_sound g (noPHTypesB_sound g hn) order st h).1 v T hk
+
+/-- M6'. **a node carries a weight for exactly the terminal types that reach it** -/
+theorem algorithm_keys_exact (g : G) (hn : noPHTypesB g = true) (order : List String) (st : AState)
+    (h : assignWeights g order = .ok st) (v T : String) (hv : v ∈ st.visited) :
+    (wget T (aget v st.nodeW)).isSome = true ↔ HasT g v T :=
+  assignWeights_keys_exact g (noPHTypesB_sound g hn) order st h v T hv
+
+/-- M7. **`Infinite` exactly when the walks are unbounded** — or one of them has at least `Infinite` hops (the
+    saturation of the count, impossible in a graph with fewer than `Infinite` nodes: M7') -/
+theorem algorithm_infinite_iff (g : G) (hn : noPHTypesB g = true) (order : List String) (st : AState)
+    (h : assignWeights g order = .ok st) (v T : String) (hv : v ∈ st.visited) :
+    wget T (aget v st.nodeW) = some FgaVerif.Model.WAssign.infinite ↔
+      ((∀ n, ∃ k, n ≤ k ∧ WalkT g v T k) ∨ ∃ k, FgaVerif.Model.WAssign.infinite ≤ k ∧ WalkT g v T k) :=
+  assignWeights_infinite_iff g (noPHTypesB_sound g hn) order st h v T hv
+
+/-- M7'. **the weight is `Infinite` exactly when such walks are unbounded** (pigeonhole: a walk with more hops than
+    the graph has nodes passes a cycle with a hop and can be pumped) -/
+theorem algorithm_infinite_iff_unbounded (g : G) (hn : noPHTypesB g = true)
+    (hsz : g.nodes.length < FgaVerif.Model.WAssign.infinite) (order : List String) (st : AState)
+    (h : assignWeights g order = .ok st) (v T : String) (hv : v ∈ st.visited) :
+    wget T (aget v st.nodeW) = some FgaVerif.Model.WAssign.infinite ↔ ∀ n, ∃ k, n ≤ k ∧ WalkT g v T k :=
+  assignWeights_infinite_iff_unbounded g (noPHTypesB_sound g hn) order st h hsz v T hv
+
+/-! non-vacuity of M.  `hopDemo`: `user` reaches `doc#b` along a walk with two hops, the weight is 2 (above), so by M3
+    no walk has more -/
+theorem hopDemo_walk : WalkT hopDemo "doc#b" "user" 2 := by
+  have ea : (⟨"doc#a", "user", .direct, "", ["none"]⟩ : WEdge) ∈ edgesOf hopDemo "doc#a" :=
+    List.mem_of_getElem? (l := edgesOf hopDemo "doc#a") (i := 0) (by decide)
+  have eb : (⟨"doc#b", "doc#a", .direct, "", ["none"]⟩ : WEdge) ∈ edgesOf hopDemo "doc#b" :=
+    List.mem_of_getElem? (l := edgesOf hopDemo "doc#b") (i := 0) (by decide)
+  have ha : HasT hopDemo "doc#a" "user" := HasT.rel _ (by decide) ea (EdgeHasT.term (by decide) (by decide))
+  have hb : HasT hopDemo "doc#b" "user" := HasT.rel _ (by decide) eb (EdgeHasT.step (by decide) ha)
+  exact WalkT.step (k := 1) _ hb eb (by decide)
+    (WalkT.last (v := "doc#a") ⟨"doc#a", "user", .direct, "", ["none"]⟩ ha ea (by decide))
+
+example (st : AState) (h : assignWeights hopDemo ["doc#c", "doc#b"] = .ok st) :
+    ∀ k, WalkT hopDemo "doc#b" "user" k → k ≤ 2 := by
+  have h1 : (match assignWeights hopDemo ["doc#c", "doc#b"] with
+    | .ok st => (decide ("doc#b" ∈ st.visited), wget "user" (aget "doc#b" st.nodeW)) | .error _ => (false, none)) =
+      (true, some 2) := by decide +kernel
+  rw [h] at h1
+  simp only [Prod.mk.injEq, decide_eq_true_eq] at h1
+  exact (algorithm_finite_weight_is_max_hops hopDemo (by decide +kernel) _ st h "doc#b" "user" 2 h1.1 h1.2 (by decide)).2.2
+/-- the runs of the examples succeed, so the statements about `st` are not vacuous -/
+example : (assignWeights hopDemo ["doc#c", "doc#b"]).toBool = true ∧ (assignWeights algoCycle ["doc#b"]).toBool = true ∧
+    (assignWeights opDemo []).toBool = true := by decide +kernel
+
+/-- `opDemo`: `user` reaches the intersection through **both** edges (`doc#a` directly, `doc#c` through `doc#b`), and
+    the exclusion through its base edge -/
+theorem opDemo_hasT : HasT opDemo "intersection:0" "user" ∧ HasT opDemo "exclusion:1" "user" := by
+  have ea : (⟨"doc#a", "user", .direct, "", ["none"]⟩ : WEdge) ∈ edgesOf opDemo "doc#a" :=
+    List.mem_of_getElem? (l := edgesOf opDemo "doc#a") (i := 0) (by decide)
+  have eb : (⟨"doc#b", "user", .direct, "", ["none"]⟩ : WEdge) ∈ edgesOf opDemo "doc#b" :=
+    List.mem_of_getElem? (l := edgesOf opDemo "doc#b") (i := 0) (by decide)
+  have ec : (⟨"doc#c", "doc#b", .direct, "", ["none"]⟩ : WEdge) ∈ edgesOf opDemo "doc#c" :=
+    List.mem_of_getElem? (l := edgesOf opDemo "doc#c") (i := 0) (by decide)
+  have ha : HasT opDemo "doc#a" "user" := HasT.rel _ (by decide) ea (EdgeHasT.term (by decide) (by decide))
+  have hb : HasT opDemo "doc#b" "user" := HasT.rel _ (by decide) eb (EdgeHasT.term (by decide) (by decide))
+  have hc : HasT opDemo "doc#c" "user" := HasT.rel _ (by decide) ec (EdgeHasT.step (by decide) hb)
+  have hes : edgesOf opDemo "intersection:0" =
+      [⟨"intersection:0", "doc#a", .rewrite, "", ["none"]⟩, ⟨"intersection:0", "doc#c", .rewrite, "", ["none"]⟩] := by decide
+  refine ⟨HasT.inter (by decide) (by decide) (by rw [hes]; exact List.cons_ne_nil _ _) ?_,
+    HasT.excl ⟨"exclusion:1", "doc#a", .rewrite, "", ["none"]⟩ (by decide) (by decide)
+      ((mem_dropLast_iff _ _).2 ⟨0, by decide, by decide⟩) (EdgeHasT.step (by decide) ha)⟩
+  intro e he
+  rw [hes] at he
+  rcases List.mem_cons.1 he with rfl | he
+  · exact EdgeHasT.step (by decide) ha
+  · rcases List.mem_cons.1 he with rfl | he
+    · exact EdgeHasT.step (by decide) hc
+    · cases he
+/-- … so by M1 both carry a weight for `user` (as evaluated above: `∞` and `2`) -/
+example (st : AState) (h : assignWeights opDemo [] = .ok st) :
+    (wget "user" (aget "intersection:0" st.nodeW)).isSome = true := by
+  have h1 : (match assignWeights opDemo [] with
+    | .ok st => decide ("intersection:0" ∈ st.visited) | .error _ => false) = true := by decide +kernel
+  rw [h] at h1
+  exact algorithm_keys_complete opDemo (by decide +kernel) _ st h _ _ (by simpa using h1) opDemo_hasT.1
+
+/-- `define v: a and b`, `define a: [user, bot]`, `define b: [user]`: the intersection has no weight for `bot`, so by
+    M1 `bot` does not reach it (one operand is not enough) -/
+def interDemo : G := {
+  nodes := [⟨"doc#v", "doc#v", .typeAndRelation⟩, ⟨"intersection:0", "intersection", .operator⟩,
+            ⟨"doc#a", "doc#a", .typeAndRelation⟩, ⟨"doc#b", "doc#b", .typeAndRelation⟩,
+            ⟨"user", "user", .specificType⟩, ⟨"bot", "bot", .specificType⟩],
+  edges := [("doc#v", [⟨"doc#v", "intersection:0", .rewrite, "", ["none"]⟩]),
+            ("intersection:0", [⟨"intersection:0", "doc#a", .rewrite, "", ["none"]⟩, ⟨"intersection:0", "doc#b", .rewrite, "", ["none"]⟩]),
+            ("doc#a", [⟨"doc#a", "user", .direct, "", ["none"]⟩, ⟨"doc#a", "bot", .direct, "", ["none"]⟩]),
+            ("doc#b", [⟨"doc#b", "user", .direct, "", ["none"]⟩])] }
+example (st : AState) (h : assignWeights interDemo [] = .ok st) : ¬ HasT interDemo "intersection:0" "bot" := by
+  have h1 : (match assignWeights interDemo [] with
+    | .ok st => (decide ("intersection:0" ∈ st.visited), aget "intersection:0" st.nodeW) | .error _ => (false, [])) =
+      (true, [("user", 1)]) := by decide +kernel
+  rw [h] at h1
+  simp only [Prod.mk.injEq, decide_eq_true_eq] at h1
+  intro hT
+  have := algorithm_keys_complete interDemo (by decide +kernel) _ st h _ _ h1.1 hT
+  rw [h1.2] at this
+  exact absurd this (by decide)
+example : (assignWeights interDemo []).toBool = true := by decide +kernel
+
+/-- `algoCycle`: the weight of `user` at `doc#a` is `Infinite` (above), so by M7' the walks from `doc#a` to `user`
+    have unboundedly many hops; and `opDemo`: the same for the intersection, whose second edge leads to the tuple
+    cycle at `doc#c` -/
+example (st : AState) (h : assignWeights algoCycle ["doc#b"] = .ok st) :
+    ∀ n, ∃ k, n ≤ k ∧ WalkT algoCycle "doc#a" "user" k := by
+  have h1 : (match assignWeights algoCycle ["doc#b"] with
+    | .ok st => (decide ("doc#a" ∈ st.visited), wget "user" (aget "doc#a" st.nodeW)) | .error _ => (false, none)) =
+      (true, some FgaVerif.Model.WAssign.infinite) := by decide +kernel
+  rw [h] at h1
+  simp only [Prod.mk.injEq, decide_eq_true_eq] at h1
+  exact (algorithm_infinite_iff_unbounded algoCycle (by decide +kernel) (by decide) _ st h _ _ h1.1).1 h1.2
+example (st : AState) (h : assignWeights opDemo [] = .ok st) :
+    ∀ n, ∃ k, n ≤ k ∧ WalkT opDemo "intersection:0" "user" k := by
+  have h1 : (match assignWeights opDemo [] with
+    | .ok st => (decide ("intersection:0" ∈ st.visited), wget "user" (aget "intersection:0" st.nodeW))
+    | .error _ => (false, none)) = (true, some FgaVerif.Model.WAssign.infinite) := by decide +kernel
+  rw [h] at h1
+  simp only [Prod.mk.injEq, decide_eq_true_eq] at h1
+  exact (algorithm_infinite_iff_unbounded opDemo (by decide +kernel) (by decide) _ st h _ _ h1.1).1 h1.2
+/-- … while the exclusion of `opDemo` has the finite weight 2 for `user`: by M3 some walk has two hops (through the
+    subtracted edge `doc#b`: the weight of an exclusion is the maximum over all its edges) and none has more -/
+example (st : AState) (h : assignWeights opDemo [] = .ok st) :
+    WalkT opDemo "exclusion:1" "user" 2 ∧ ∀ k, WalkT opDemo "exclusion:1" "user" k → k ≤ 2 := by
+  have h1 : (match assignWeights opDemo [] with
+    | .ok st => (decide ("exclusion:1" ∈ st.visited), wget "user" (aget "exclusion:1" st.nodeW))
+    | .error _ => (false, none)) = (true, some 2) := by decide +kernel
+  rw [h] at h1
+  simp only [Prod.mk.injEq, decide_eq_true_eq] at h1
+  exact (algorithm_finite_weight_is_max_hops opDemo (by decide +kernel) _ st h _ _ 2 h1.1 h1.2 (by decide)).2
+
+/-- why a walk may leave an exclusion through the subtracted edge: restricted to the base edge (`→ doc#a`) no walk from
+    `exclusion:1` to `user` would have more than one hop (M3 at `doc#a`, weight 1), yet the weight is 2 -/
+example (st : AState) (h : assignWeights opDemo [] = .ok st) :
+    (∀ k, WalkT opDemo "doc#a" "user" k → k ≤ 1) ∧ wget "user" (aget "exclusion:1" st.nodeW) = some 2 := by
+  have h1 : (match assignWeights opDemo [] with
+    | .ok st => (decide ("doc#a" ∈ st.visited), wget "user" (aget "doc#a" st.nodeW), wget "user" (aget "exclusion:1" st.nodeW))
+    | .error _ => (false, none, none)) = (true, some 1, some 2) := by decide +kernel
+  rw [h] at h1
+  simp only [Prod.mk.injEq, decide_eq_true_eq] at h1
+  exact ⟨(algorithm_finite_weight_is_max_hops opDemo (by decide +kernel) _ st h _ _ 1 h1.1 h1.2.1 (by decide)).2.2, h1.2.2⟩
 
 end algorithm
 
